@@ -3,7 +3,9 @@ cd /verif
 run() { c=$1; p=$2; git -C /repo diff $c~1 $c > /tmp/rev-$c.diff; echo "=== revert $c -> $p"; KEEP=/verif/replays/fixed/$c TAIL=4 tools/try_patch.sh /tmp/rev-$c.diff $p quick -R; }
 run 55606d2 C15
 run e46ec19 C01
-run 44fc538 C08
+# 44fc538 shares its lines with the later aecaa2c: its one effective line is removed by hand
+mkdir -p /tmp/rev44/a/backend/hdf5 /tmp/rev44/b/backend/hdf5; cp /repo/backend/hdf5/BlockHDF5.cpp /tmp/rev44/a/backend/hdf5/; grep -v "^    data_type_to_h5_filetype(data_type);$" /repo/backend/hdf5/BlockHDF5.cpp > /tmp/rev44/b/backend/hdf5/BlockHDF5.cpp
+(cd /tmp/rev44 && diff -u a/backend/hdf5/BlockHDF5.cpp b/backend/hdf5/BlockHDF5.cpp > /tmp/rev-44fc538.diff); echo "=== revert 44fc538 (by hand) -> C08"; KEEP=/verif/replays/fixed/44fc538 TAIL=4 tools/try_patch.sh /tmp/rev-44fc538.diff C08 quick
 run 02dc91a C08
 run 58f4a78 C08
 run d18fe44 C08
